@@ -89,7 +89,11 @@ def canonicalize_license_expression(
             python_tokens.append("False")
         elif token == "with":
             python_tokens.append("or")
-        elif token == "(" and python_tokens and python_tokens[-1] not in {"or", "and"}:
+        elif token == "(" and python_tokens and python_tokens[-1] not in {
+            "or",
+            "and",
+            "(",
+        }:
             message = f"Invalid license expression: {raw_license_expression!r}"
             raise InvalidLicenseExpression(message)
         else:
